@@ -10,16 +10,19 @@ from dataclasses import dataclass
 from typing import Any
 
 from symex.case import Case
-from entity_query_language import an, the, entity, let, symbolic_mode, rule_mode, symbol, predicate, MultipleSolutionFound, NoSolutionFound
+from entity_query_language import (an, the, entity, let, symbolic_mode, rule_mode, symbol, predicate, Predicate, HasType, infer,
+                                   MultipleSolutionFound, NoSolutionFound)
 from entity_query_language.symbolic import in_symbolic_mode, SymbolicExpression, Variable
 from entity_query_language.enums import EQLMode
 
 ASSUMPTIONS = [
     "single-threaded histories; threads/asyncio tasks (separate contextvars contexts) are outside the claim",
     "dropping the last reference finalises a generator immediately (CPython reference counting)",
-    "iterators range over two pre-built queries with 3 results each; GEN_NEW uses the lowest free slot (symmetry)",
+    "iterators range over two pre-built queries with 3 results each (a comparison; and a Predicate-subclass condition, or per "
+    "shape a plain comparison / an inferred variable); the(...) over many solutions uses HasType; GEN_NEW uses the lowest free slot",
 ]
-BOUNDS = {"quick": dict(history_length=5, iterators=2), "thorough": dict(history_length=6, iterators=2)}
+BOUNDS = {"quick": dict(history_length=5, iterators=2, variants="iterator order swapped / inferred variable / two plain comparisons at H-1"),
+          "thorough": dict(history_length=6, iterators=2, variants="as quick at H-1")}
 LIMITS = {"quick": dict(max_paths=400000, max_wall=500), "thorough": dict(max_paths=5000000, max_wall=3300)}
 FIDELITY = {"quick": "first", "thorough": "first"}
 WALL_BUDGET = {"quick": 560, "thorough": 3500}
@@ -37,6 +40,21 @@ def is_big(x):
     return x > 1
 
 
+@dataclass(eq=False)
+class Small(Predicate):
+    """Predicate subclass: instantiated by the engine for every candidate while a query is evaluated."""
+    it: Any
+
+    def __call__(self):
+        return self.it.a < 9
+
+
+@symbol
+@dataclass(eq=False)
+class Made:
+    src: Any = None
+
+
 class C08(Case):
     prop = "C08"
 
@@ -48,15 +66,21 @@ class C08(Case):
             x = let(Thing, domain=things)
             q0 = an(entity(x, x.a > 0))
             y = let(Thing, domain=things)
-            q1 = an(entity(y, y.a < 9))
+            if sp.get("q1") == "infer":
+                with rule_mode():
+                    q1 = infer(entity(Made(src=y), y.a < 9))    # inferred variable: instances built during evaluation
+            elif sp.get("q1") == "plain":
+                q1 = an(entity(y, y.a < 9))
+            else:
+                q1 = an(entity(y, Small(it=y)))                 # Predicate subclass as condition
             z = let(Thing, domain=things)
             the_one = the(entity(z, z.a == 2))
             z2 = let(Thing, domain=things)
-            the_many = the(entity(z2, z2.a > 0))
+            the_many = the(entity(z2, HasType(variable=z2, types_=Thing)))
             z3 = let(Thing, domain=things)
             the_none = the(entity(z3, z3.a > 9))
-        queries = [q0, q1]
-        cr = [q._conditions_root_ for q in queries]
+        queries = [q1, q0] if sp.get("swap") else [q0, q1]
+        cr = [q0._conditions_root_]
         first = sp.get("first")  # optional fixed first ops (partition of the history space over workers)
         ref_modes = []          # reference: stack of modes, one per open block that sets a mode
         ref_expr = []           # reference: expression context stack (node objects)
@@ -228,6 +252,10 @@ def shapes(tier, seed):
             second += ["GEN_NEW1", "GEN_NEXT0", "GEN_CLOSE0", "GEN_DROP0", "GEN_EXHAUST0"]
         for b in second:
             out.append(dict(H=H, first=[a, b]))
+            # iterator 0 over the Predicate-subclass query / over an inferred variable (instances are built while iterating)
+            out.append(dict(H=H - 1, first=[a, b], swap=True))
+            out.append(dict(H=H - 1, first=[a, b], swap=True, q1="infer"))
+            out.append(dict(H=H - 1, first=[a, b], q1="plain"))
     for h in range(1, 3):
         out.append(dict(H=h))
     return out
